@@ -3,14 +3,14 @@ CONSTANTS
   KeyTab <- MCKeyTab
   CurSeq <- MCCurSeq
   Special <- MCSpecial
-  Ledgers <- GenLedgersThorough
+  Ledgers = {}
   OpenArgs <- Open05
   CloseArgs <- Close05
   ClearArgs = {TRUE, FALSE}
   Filters <- FAll
   Order <- OrderStated
   CompileMode = "stated"
-INIT Init
+INIT GInitThorough
 NEXT GNextThorough
 INVARIANTS ExpectInv CompileInv Emit
 CHECK_DEADLOCK FALSE
